@@ -589,6 +589,15 @@ func stripOAIGenForRef(opts *FlattenOpts, k string, r *newRef) (bool, error) {
 
 	// rewrite first parent schema in hierarchical then lexicographical order
 	debugLog("rewrite first parent %s with schema", pr[0])
+	if r.schema != nil {
+		if _, marked := r.schema.Extensions["x-go-gen-location"]; marked {
+			// the marker of a generated definition is not meant for the schema re-inlined in its referer
+			inlined := schutils.Clone(r.schema)
+			delete(inlined.Extensions, "x-go-gen-location")
+			r.schema = inlined
+		}
+	}
+
 	if err := replace.UpdateRefWithSchema(opts.Swagger(), pr[0], r.schema); err != nil {
 		return false, err
 	}
